@@ -436,3 +436,102 @@ func TestGvcReplay(t *testing.T) {
 	out, ok := e.runOverlayTest(c, test)
 	return out, ok, test
 }
+
+// replaySignerError confirms on the real code that a failing signing callback's
+// own error is not reachable through errors.Is from the returned error.
+func (e *Engine) replaySignerError(o *Obligation) (string, bool, string) {
+	c := o.contract
+	if c == nil {
+		return "", false, ""
+	}
+	fn := e.funcsByName[c.Key]
+	if fn == nil || len(fn.Params) != 4 {
+		return "", false, ""
+	}
+	test := fmt.Sprintf(`//go:build verif
+
+package deb
+
+import (
+	"errors"
+	"io"
+	"testing"
+
+	"github.com/goreleaser/nfpm/v2"
+)
+
+func TestGvcReplay(t *testing.T) {
+	sentinel := errors.New("gvc: injected signer failure")
+	info := &nfpm.Info{}
+	info.Deb.Signature.SignFn = func(io.Reader) ([]byte, error) { return nil, sentinel }
+	_, _, err := %s(info, []byte("2.0\n"), []byte("control"), []byte("data"))
+	if err == nil {
+		t.Fatalf("GVC-REPLAY-VIOLATED %%s: the signer failed but no error was returned", %q)
+	}
+	if !errors.Is(err, sentinel) {
+		t.Fatalf("GVC-REPLAY-VIOLATED %%s: errors.Is(err, signerErr) is false for err = %%v (%%T)", %q, err, err)
+	}
+}
+`, fn.Name(), o.ID, o.ID)
+	out, ok := e.runOverlayTest(c, test)
+	return out, ok, test
+}
+
+// replaySignerTyped confirms on the real code that a failing signing callback
+// does not surface as an identifiable signing failure from Package.
+func (e *Engine) replaySignerTyped(o *Obligation) (string, bool, string) {
+	c := o.contract
+	if c == nil || !strings.HasSuffix(c.Key, ".Package") {
+		return "", false, ""
+	}
+	pkgName := ""
+	for _, cf := range e.files {
+		if cf.Pkg == c.Pkg {
+			pkgName = cf.PkgName
+		}
+	}
+	sigField := map[string]string{"deb": "Deb", "rpm": "RPM", "apk": "APK"}[pkgName]
+	if sigField == "" {
+		return "", false, ""
+	}
+	test := fmt.Sprintf(`//go:build verif
+
+package %s
+
+import (
+	"errors"
+	"io"
+	"os"
+	"path/filepath"
+	"testing"
+
+	"github.com/goreleaser/nfpm/v2"
+	"github.com/goreleaser/nfpm/v2/files"
+)
+
+func TestGvcReplay(t *testing.T) {
+	dir := t.TempDir()
+	src := filepath.Join(dir, "payload")
+	os.WriteFile(src, []byte("x"), 0o644)
+	sentinel := errors.New("gvc: injected signer failure")
+	info := nfpm.WithDefaults(&nfpm.Info{
+		Name: "gvcreplay", Arch: "amd64", Version: "1.0.0", Description: "d", Maintainer: "m <m@example.com>",
+		Overridables: nfpm.Overridables{Contents: files.Contents{{Source: src, Destination: "/usr/bin/payload"}}},
+	})
+	info.%s.Signature.SignFn = func(io.Reader) ([]byte, error) { return nil, sentinel }
+	err := Default.Package(info, io.Discard)
+	if err == nil {
+		t.Fatalf("GVC-REPLAY-VIOLATED %%s: the signer failed but Package returned nil", %q)
+	}
+	var sf *nfpm.ErrSigningFailure
+	if !errors.As(err, &sf) {
+		t.Fatalf("GVC-REPLAY-VIOLATED %%s: the error is not identifiable as a signing failure: %%v (%%T)", %q, err, err)
+	}
+	if !errors.Is(err, sentinel) {
+		t.Fatalf("GVC-REPLAY-VIOLATED %%s: the signer's own error is not wrapped: %%v", %q, err)
+	}
+}
+`, pkgName, sigField, o.ID, o.ID, o.ID)
+	out, ok := e.runOverlayTest(c, test)
+	return out, ok, test
+}
